@@ -99,15 +99,19 @@ inductive Style where
   | setStyle   -- save_set: never a single form
   deriving DecidableEq, Repr
 
+/-- may the element at position `i` (first of its batch, last of the container) be written in the single form? -/
+def singleFormOK : Style → Nat → Bool
+  | .exact, i => i == 0
+  | .iter, _ => true
+  | .setStyle, _ => false
+
 /-- elements `i, i+1, …` of a container, in batches of `BATCH` between MARK and `multi` -/
 def saveItems {α : Type} (saveElem : α → DState → Option DState) (single multi : Op) (style : Style) :
     Nat → List α → DState → Option DState
   | _, [], st => some st
   | i, x :: xs, st =>
     let startB := i % BATCH == 0
-    let singleForm := startB && xs.isEmpty &&
-      (match style with | .exact => i == 0 | .iter => true | .setStyle => false)
-    if singleForm then (saveElem x st).map (·.emit single)
+    if startB && xs.isEmpty && singleFormOK style i then (saveElem x st).map (·.emit single)
     else
       match saveElem x (if startB then st.emit .mark else st) with
       | Option.none => Option.none
